@@ -286,7 +286,8 @@ class ResetAttrMethod(AttrMethodDescriptor):
             return self
         if not _inplace:
             self = copy.deepcopy(self)
-        delattr(self, attr_spec.name)
+        # A private copy may be mutated even if the class is frozen.
+        self.__delattr__(attr_spec.name, force=not _inplace)
         return self
 
     def build_method(self) -> Callable:
